@@ -66,7 +66,7 @@ PROPS = {
                        "proxy process. Every request goes to E and to P; the two answers must agree in status, error code, every response header "
                        "except Date / Last-Modified / Server / request ids, and body (XML compared canonically with LastModified / Initiated / "
                        "CreationDate / error Message blanked, empty elements dropped, upload ids mapped to placeholders); a proxy process that dies is a "
-                       "violation. At the end listing, uploads, ACL and policy of both sides must agree. Also: Expires values that are no dates, ListMultipartUploads with either marker alone or both, CreateBucket for the bucket that exists (owner and non-owner). Bucket names take the forms client libraries treat specially (dots, the suffixes --x-s3, --ol-s3, -s3alias, the prefix xn--)."),
+                       "violation. At the end listing, uploads, ACL and policy of both sides must agree. Also: Expires values that are no dates, ListMultipartUploads with either marker alone or both, CreateBucket for the bucket that exists (owner and non-owner). Bucket names take the forms client libraries treat specially (dots, the suffixes --x-s3, --ol-s3, -s3alias, the prefix xn--). Versions and delete markers are read, HEADed and deleted by the ids each side announced (the n-th on either side). The quick tier runs 1200 programs."),
         "level_note": ("Half of the cases create the bucket with ACLs enabled (PutBucketAcl is then really carried out); open finding C18-acl-does-not-fit-the-reserved-tag ends a case at the diverging PutBucketAcl. Two open findings narrow the oracle: bucket tagging is not implemented by the proxy backend (operations excluded by construction, "
                        "strict replay kept), and the Owner of listed objects is the backend account (difference tolerated only for exactly that element). "
                        "An upload the endpoint refuses before reading the body may race with the proxy's sdk client (reset while writing => 500): such a "
@@ -75,7 +75,7 @@ PROPS = {
                  "a request by a non-root account; distinct by the full case."),
         "assumptions": ["the endpoint behind the proxy is a versitygw posix gateway (no AWS S3 offline); self-signed certificate with --ssl-skip-verify stands for https"],
         "jobs": [
-            {"run": "TestC18A", "quick": 320, "thorough": 40000, "shards_quick": 8, "shards_thorough": 16},
+            {"run": "TestC18A", "quick": 1200, "thorough": 40000, "shards_quick": 8, "shards_thorough": 16},
         ],
     },
     "C19": {
